@@ -258,6 +258,10 @@ known("KF-C04-STREAM", "C04", "roundtrip", r"Encoder→Decoder", r"stream-differ
       'a >512-byte document whose struct key is spelled "\\u003ck\\u003e" decodes with Unmarshal but fails (or mis-assigns) with Decoder when the escape straddles the 512-byte refill', "internal/decoder/struct.go decodeKeyByBitmap*Stream / decodeKeyCharByUnicodeRuneStream: state lost when the buffer is refilled inside an escaped key (see C09)",
       "other stream-only failures on large documents containing \\u00XX escapes", "belongs to the stream refill logic; C09 keeps the precise chunk-level findings")
 
+# ------------------------------------------------------------------ C08
+SAFE = r"(panic:.+|fatal:.+|checkptr:.+|asan:.+|excessive-allocation|slot-clobber:.+)"
+feature_entries("C08", "(enc-safety|slot-owner)", "KF-C08", SAFE, ["ptr2\\+", "array1-ptr-shaped-elem", "struct-ptr-shaped", "mapkey-marshaler", "nilable-marshalerV", "ptr-to-marshaler", "embedded-structof", "tags-zoo"])
+
 json.dump({"comment": "generated by tools/gen_known.py; never written at check time", "findings": F},
           open(os.path.join(os.path.dirname(os.path.abspath(__file__)), "..", "known_findings.json"), "w"), indent=1, ensure_ascii=False)
 print(len(F), "entries")
